@@ -191,13 +191,13 @@ func c11r1(c *core.Ctx) {
 		f := tr.Reset
 		ok := false
 		core.InspectNoLits(f.Body, func(n ast.Node) bool {
-			rs, isR := n.(*ast.RangeStmt)
-			if !isR || fieldKeyOf(m, rs.X) != "table.columns" {
+			body, isLoop := loopOverAll(m, n, "table.columns")
+			if !isLoop {
 				return true
 			}
 			cond := false
 			called := false
-			ast.Inspect(rs.Body, func(x ast.Node) bool {
+			ast.Inspect(body, func(x ast.Node) bool {
 				switch y := x.(type) {
 				case *ast.IfStmt, *ast.BranchStmt:
 					cond = true
@@ -542,9 +542,17 @@ func c11r3(c *core.Ctx) {
 	core.InspectNoLits(fn.Body, func(n ast.Node) bool {
 		switch x := n.(type) {
 		case *ast.CaseClause:
-			if returnsFalse(x.Body) {
-				for _, e := range x.List {
-					if k := kindOf(e); k != "" {
+			self := false
+			for _, st := range x.Body {
+				if containsSelfCall(m, fn, st) {
+					self = true
+				}
+			}
+			for _, e := range x.List {
+				if k := kindOf(e); k != "" {
+					if self {
+						recurse[k] = true
+					} else if returnsFalse(x.Body) {
 						falseKinds[k] = true
 					}
 				}
@@ -625,7 +633,8 @@ func c11r4(c *core.Ctx) {
 	raw := rawCopyRole(c)
 	var adj *core.Func
 	for _, f := range m.Funcs {
-		if f.Recv != "table" {
+		// a method of the table or a function taking the table; constructors (returning a table) are not the role
+		if f.Recv != "table" && !(f.Recv == "" && f.Sig != nil && f.Sig.Params().Len() > 0 && isPtrTo(f.Sig.Params().At(0).Type(), "table")) {
 			continue
 		}
 		core.InspectNoLits(f.Body, func(n ast.Node) bool {
@@ -660,7 +669,29 @@ func c11r4(c *core.Ctx) {
 			}
 			s := m.ExprString(rhs)
 			subject := adj.Name + ": " + m.ExprString(l)
-			if freshTypedArray(m, adj, rhs, 0) && strings.Contains(s, "t.cap") {
+			// the array length is the table's capacity: the field itself, or the value this function stores into it
+			capStrings := map[string]bool{}
+			core.InspectNoLits(adj.Body, func(x ast.Node) bool {
+				if as2, ok := x.(*ast.AssignStmt); ok && len(as2.Lhs) == len(as2.Rhs) {
+					for j, l2 := range as2.Lhs {
+						if fieldKeyOf(m, l2) == "table.cap" {
+							capStrings[m.ExprString(as2.Rhs[j])] = true
+						}
+					}
+				}
+				return true
+			})
+			lenIsCap := false
+			// (the allocation may sit in a helper that receives the capacity: freshTypedArray follows it)
+			ast.Inspect(m.Inline(rhs), func(x ast.Node) bool {
+				if a, ok := x.(ast.Expr); ok {
+					if fieldKeyOf(m, a) == "table.cap" || capStrings[m.ExprString(a)] {
+						lenIsCap = true
+					}
+				}
+				return true
+			})
+			if freshTypedArray(m, adj, rhs, 0) && lenIsCap {
 				c.OK("C11/R4", subject, c.At(as.Pos()), "fresh zeroed typed array of the new capacity")
 			} else {
 				c.Violation("C11/R4", subject, c.At(as.Pos()), fmt.Sprintf("%s: new buffer is %s, expected a fresh reflect.New(reflect.ArrayOf(cap, type)) array", adj.Name, s))
